@@ -28,7 +28,10 @@ def showM (m : M) (from_ : Nat) (uses : List (Option Nat) := []) : String :=
     | some bd => if scopeAlive m bd.innerScope then (if isLoading m (nb + 1) b then "1" else "0") else "x"
     | none => "?"
   -- a resource read has no body that resumes: only real tasks are logged
-  let ps := ((m.polls.drop from_).filter fun (t, _) => (uses[t]?.getD none).isNone).map fun (t, l) => s!"{t}.{l}"
+  -- which task is polled first within one executor turn is a scheduling detail: listed by task
+  let polled := ((m.polls.drop from_).filter fun (t, _) => (uses[t]?.getD none).isNone)
+  let polled := (polled.toArray.qsort fun a b => a.1 < b.1 || (a.1 == b.1 && a.2 > b.2)).toList
+  let ps := polled.map fun (t, l) => s!"{t}.{l}"
   let g := if globalLoading m then "1" else "0"
   s!"L={String.join ls} G={g} P=[{",".intercalate ps}]"
 
@@ -37,10 +40,33 @@ def readEv (s : String) : Option Ev :=
   else if s.startsWith "d" then (s.drop 1).toString.toNat?.map .dispose
   else none
 
+/-- the events of a group `a+b+…` happen back to back, one executor turn afterwards: the disposals take
+effect at once, the completed await points resume their tasks in that turn (if they were not aborted),
+then the aborted tasks are dropped -/
+def runGroup (uses : List (Option Nat)) (m : M) (g : String) : Option M :=
+  let parts := g.splitOn "+"
+  let disposes := parts.filterMap fun e => if e.startsWith "d" then (e.drop 1).toString.toNat? else none
+  let completes : List Nat := parts.flatMap fun e =>
+    if e.startsWith "c" then ((e.drop 1).toString.toNat?).toList
+    else if e.startsWith "r" then
+      match (e.drop 1).toString.toNat? with
+      | some n => (List.range uses.length).filter fun t => uses[t]? == some (some n)
+      | none => []
+    else []
+  if parts.any fun e => !(e.startsWith "d" || e.startsWith "c" || e.startsWith "r") then none else
+  let m := disposes.foldl dispose m
+  let m := completes.foldl complete m
+  some (drain m)
+
 def runSuspense (uses : List (Option Nat)) (m : M) (evs : List String) (acc : List String) : List String :=
   match evs with
   | [] => acc
   | e :: es =>
+    if (e.splitOn "+").length > 1 then
+      match runGroup uses m e with
+      | none => acc ++ ["bad-op"]
+      | some m' => runSuspense uses m' es (acc ++ [showM m' m.polls.length uses])
+    else
     if e.startsWith "r" then
       -- resource `n` delivers: every guard taken for it is released (the tasks standing for its reads
       -- complete, in creation order)
@@ -61,10 +87,24 @@ def showRes (r : Res) (alive : Bool) : String :=
   if !alive then "dead" else
   (match r.value with | some (k, d) => s!"v={k}:{d}" | none => "v=none") ++ (if r.loading then " l=1" else " l=0")
 
+/-- one resource event (no output) -/
+def resEv (r : Res) (alive : Bool) (e : String) : Option (Res × Bool) :=
+  if e == "x" then some (r, false) else
+  let ev : Option REv :=
+    if e.startsWith "w" then (e.drop 1).toString.toNat?.map .write
+    else if e.startsWith "f" then (e.drop 1).toString.toNat?.map .finish else none
+  ev.map fun ev => (if alive then rstep r ev else r, alive)
+
 def runResource (r : Res) (alive : Bool) (evs : List String) (acc : List String) : List String :=
   match evs with
   | [] => acc
   | e :: es =>
+    if (e.splitOn "+").length > 1 then
+      -- back-to-back events: the machine has no executor, so they are simply taken in order
+      match (e.splitOn "+").foldlM (fun (s : Res × Bool) x => resEv s.1 s.2 x) (r, alive) with
+      | none => acc ++ ["bad-op"]
+      | some (r', alive') => runResource r' alive' es (acc ++ [showRes r' alive'])
+    else
     if e == "x" then runResource r false es (acc ++ [showRes r false]) else
     let ev : Option REv :=
       if e.startsWith "w" then (e.drop 1).toString.toNat?.map .write
@@ -118,7 +158,10 @@ def handle (line : String) : String :=
       match items0.mapM readItem with
       | some items =>
         let m := buildItems M.init 0 none items
-        " | ".intercalate (runSuspense (items0.flatMap usesOf) m (if evs == "-" then [] else evs.splitOn ",") [showM m 0 (items0.flatMap usesOf)])
+        -- a leading `n` (no executor turn before the first event) makes no difference to the model
+        let evl := if evs == "-" then [] else evs.splitOn ","
+        let evl := if evl.head? == some "n" then evl.drop 1 else evl
+        " | ".intercalate (runSuspense (items0.flatMap usesOf) m evl [showM m 0 (items0.flatMap usesOf)])
       | none => "bad-op"
     | _, _ => "bad-op"
   | _ => "bad-op"
